@@ -171,7 +171,20 @@ def validate_histories(ctx, hist, label):
     ctx.note('distinct_histories', ctx.notes.get('distinct_histories', 0) + len(keys))
     for part in core.chunks(keys, 3000):
         traces = [json.loads(k) for k in part]
-        for idx, furthest in core.validate_batch(ctx, 'PortTrace', traces, label, timeout=1800):
+        strong = core.validate_batch(ctx, 'PortTrace', traces, label + ' (atomic-queue reading)', timeout=1800,
+                                     extra_cfg='CONSTANT WeakPoll = FALSE\n')
+        if strong:
+            # a poll() answered None although a message had been sent: allowed by the
+            # property, recorded as an observation
+            ctx.count('histories_only_explained_with_weak_poll', len(strong))
+            if len(ctx.observations) < 5:
+                ctx.observations.append({'weak_poll_history': traces[strong[0][0]][:12]})
+            traces = [traces[i] for i, _ in strong]
+            part = [part[i] for i, _ in strong]
+        else:
+            continue
+        for idx, furthest in core.validate_batch(ctx, 'PortTrace', traces, label + ' (weak poll)', timeout=1800,
+                                                 extra_cfg='CONSTANT WeakPoll = TRUE\n'):
             case = hist[part[idx]]
             ev = traces[idx]
             ctx.violation('ports/not-linearizable/%s' % case['kind'], case,
@@ -191,7 +204,7 @@ def replay(case):
     if dv:
         return '%s: %s' % dv
     ctx = core.Ctx('C10', 'quick', 0)
-    rej = core.validate_batch(ctx, 'PortTrace', [run['events']])
+    rej = core.validate_batch(ctx, 'PortTrace', [run['events']], extra_cfg='CONSTANT WeakPoll = TRUE\n')
     if rej:
         return 'history not linearizable (event %d): %r' % (rej[0][1], run['events'])
     return None
